@@ -26,6 +26,7 @@ type Config struct {
 	MaxSteps        int64 // instructions per path
 	MaxPaths        int   // per harness
 	MaxSchedPoints  int
+	MaxPreemptTargets int // a preemption may switch to one of the first N runnable threads
 	MaxSymLen       int
 	IteIndexMin     int // arrays longer than this use ite chains for symbolic loads
 	SolverTimeoutMs int
@@ -50,6 +51,7 @@ func DefaultConfig() Config {
 		MaxSteps:        20_000_000,
 		MaxPaths:        200_000,
 		MaxSchedPoints:  400,
+		MaxPreemptTargets: 3,
 		MaxSymLen:       64,
 		IteIndexMin:     4,
 		SolverTimeoutMs: 10_000,
